@@ -3,7 +3,7 @@
    `remaining length` bytes, a property section exactly the next `property length` bytes, every
    sub-parser must use its slice up), unlike the code's running-length accounting.
    The pinned leniencies / restrictions of DESIGN.md §4 (L1-L12, D1-D4) are marked `pinned`. *)
-From MQ Require Export Spec.Topic Model.Valid.
+From MQ Require Export Spec.SpecTopic Model.Valid.
 Open Scope N_scope.
 
 Module SP.
